@@ -35,13 +35,17 @@ def ensure_deps():
         return False  # attach.py falls back to its built-in wrapper
 
 
-def child_env():
+def child_env(idx=0, seed=0):
     env = dict(os.environ)
+    # every worker gets its own (reproducible) hash seed: results must not depend on set/dict iteration order of strings and tuples
+    if "VERIF_HASHSEED" in os.environ:
+        env["PYTHONHASHSEED"] = os.environ["VERIF_HASHSEED"]
+    else:
+        env["PYTHONHASHSEED"] = str((seed * 131 + idx * 7 + 1) % 4000)
     # VERIF_REPO first (so a scratch copy can be checked), then /verif, .deps last (never shadow the repo's own deps)
     env["PYTHONPATH"] = os.pathsep.join([repo_path(), VERIF])
     env["VERIF_DEPS"] = os.path.join(VERIF, ".deps")
     env["MOLGRI_VERIF"] = "1"
-    env.setdefault("PYTHONHASHSEED", "0")
     for k in ("OMP_NUM_THREADS", "OPENBLAS_NUM_THREADS", "MKL_NUM_THREADS"):
         env[k] = "1"
     env["PYTHONWARNINGS"] = "ignore"
@@ -56,7 +60,7 @@ def run_worker(prop, spec, scratch, idx, timeout):
         json.dump(spec, f)
     t0 = time.time()
     try:
-        p = subprocess.run([PYTHON, "-m", "vlib.worker", prop, spec_path, out_path], cwd=VERIF, env=child_env(),
+        p = subprocess.run([PYTHON, "-m", "vlib.worker", prop, spec_path, out_path], cwd=VERIF, env=child_env(idx, int(spec.get("seed", 0) or 0)),
                            timeout=timeout, stdout=subprocess.DEVNULL, stderr=subprocess.DEVNULL,
                            start_new_session=True)
         rc = p.returncode
